@@ -10,6 +10,7 @@
 //   T <table>   (EV format)                     table
 //   M <monodim>                                 mono
 //   V d <mask> xbits* centers*                  <bits of ndsplineeval<double>(x, centers, 1<<monodim)>
+//   V d 0 xbits* centers*                       <bits of ndsplineeval<double>(x, centers, 0)>   (the value at the same point)
 //   H <ncoef> <k> (mono-bits32 scaled-bits32)*  scaled        (small-magnitude inactive shape: monotonic fits of data and of 2^k * data)
 //   U <ncoef> (mono-bits32 unc-bits32)*         unc           (inactive case only: both coefficient vectors)
 #include "common.h"
@@ -247,6 +248,18 @@ static void run_problem(const Problem& p, Rng& r, std::map<std::string, long>& s
       for (int d = 0; d < p.ndim; d++) fprintf(fc, " %d", c[d]);
       fprintf(fc, "\n"); fprintf(fi, "%llu\n", (unsigned long long)cbits(dv));
       stats["deriv_points"]++;
+      // the value at the same point (no random draw: both input streams are unchanged): the surface itself must be
+      // non-decreasing along monodim from one point of this line to the next (C10_surface_monotone)
+      // (on two of the lines only — the lower edge of the other dimensions and a random position — to keep the exact evaluations of
+      // the thorough tier within its time budget)
+      if (q == 0 || q == 2) {
+        double vv = t.ndsplineeval<double>(x.data(), c.data(), 0);
+        fprintf(fc, "V d 0");
+        for (int d = 0; d < p.ndim; d++) fprintf(fc, " %llu", (unsigned long long)bits(x[d]));
+        for (int d = 0; d < p.ndim; d++) fprintf(fc, " %d", c[d]);
+        fprintf(fc, "\n"); fprintf(fi, "%llu\n", (unsigned long long)cbits(vv));
+        stats["value_points"]++;
+      }
     }
   }
   if (p.shape == 10) {
